@@ -848,6 +848,47 @@ theorem rpcPin_effect (cfg : Cfg) (pre : PinMap) (p : Pin) (ch : List Nat) (hw :
     rw [if_pos this]; rfl
 
 
+/-- the consensus log of a pin-type call: nothing, or one pin for that cid -/
+def LShape (c : Nat) (out : Out) : Prop := out.log = [] ∨ ∃ q : Pin, q.cid = c ∧ out.log = [.logPin q]
+
+theorem lshape_pinUpdate (cfg : Cfg) (pre : PinMap) (s d : Nat) (o : Opts) : LShape d (pinUpdate cfg pre s d o) := by
+  unfold pinUpdate
+  split_ifs
+  · exact Or.inl rfl
+  · split
+    · exact Or.inl rfl
+    · split_ifs
+      · exact Or.inl rfl
+      · exact Or.inr ⟨_, updPin_cid _ _ _ _, rfl⟩
+
+theorem lshape_pinBody (cfg : Cfg) (pre : PinMap) (p : Pin) (bl ch : List Nat) :
+    LShape p.cid (pinBody cfg pre p bl ch) := by
+  unfold pinBody
+  simp only
+  have h3 : (keepOrNew (pre.get p.cid) (setupFactors cfg p) bl).cid = p.cid :=
+    keepOrNew_cid _ _ (setupFactors_cid cfg p)
+  split_ifs
+  · exact Or.inl rfl
+  · exact Or.inl rfl
+  · exact Or.inl rfl
+  · exact Or.inr ⟨_, setupFactors_cid cfg p, rfl⟩
+  · split
+    · exact Or.inr ⟨{ keepOrNew (pre.get p.cid) (setupFactors cfg p) bl with allocs := ch }, h3, rfl⟩
+    · exact Or.inl rfl
+  · exact Or.inr ⟨_, h3, rfl⟩
+
+theorem lshape_pinOp (cfg : Cfg) (pre : PinMap) (p : Pin) (bl ch : List Nat) :
+    LShape p.cid (pinOp cfg pre p bl ch) := by
+  unfold pinOp
+  split_ifs
+  · exact Or.inl rfl
+  · split
+    · split_ifs
+      · exact lshape_pinUpdate ..
+      · exact lshape_pinBody ..
+    · exact lshape_pinBody ..
+  · exact lshape_pinBody ..
+
 /-! ### stored form is preserved by every call -/
 def metaOk (p : Pin) : Prop := (p.opts.metadata.map (·.1)).Nodup
 
